@@ -19,12 +19,16 @@ type CaseFileSeries struct {
 }
 
 type CaseFile struct {
-	Query     string           `json:"query"`
-	Window    Window           `json:"window"`
-	Lookback  int64            `json:"lookback_ms"`
-	QLookback int64            `json:"query_lookback_ms"`
-	Procs     int              `json:"gomaxprocs"`
-	Series    []CaseFileSeries `json:"series"`
+	Query     string `json:"query"`
+	Window    Window `json:"window"`
+	Lookback  int64  `json:"lookback_ms"`
+	QLookback int64  `json:"query_lookback_ms"`
+	Procs     int    `json:"gomaxprocs"`
+	// the generator's coordinates: some oracles derive choices from them (the partition of the
+	// distributed oracle, whether the storage trims to the selected range), so a replay needs them
+	ID     int              `json:"id,omitempty"`
+	Seed   int64            `json:"seed,omitempty"`
+	Series []CaseFileSeries `json:"series"`
 }
 
 func fmtVal(v float64) string {
@@ -56,7 +60,7 @@ func parseVal(s string) float64 {
 }
 
 func (c *Case) ToFile() CaseFile {
-	cf := CaseFile{Query: c.Query, Window: c.Window, Lookback: c.Lookback, QLookback: c.QLookback, Procs: c.Procs}
+	cf := CaseFile{Query: c.Query, Window: c.Window, Lookback: c.Lookback, QLookback: c.QLookback, Procs: c.Procs, ID: c.ID, Seed: c.Seed}
 	for _, s := range c.Data {
 		fs := CaseFileSeries{Labels: s.Labels.Map()}
 		for _, p := range s.Samples {
@@ -68,7 +72,7 @@ func (c *Case) ToFile() CaseFile {
 }
 
 func (cf CaseFile) ToCase() *Case {
-	c := &Case{Query: cf.Query, Window: cf.Window, Lookback: cf.Lookback, QLookback: cf.QLookback, Procs: cf.Procs}
+	c := &Case{Query: cf.Query, Window: cf.Window, Lookback: cf.Lookback, QLookback: cf.QLookback, Procs: cf.Procs, ID: cf.ID, Seed: cf.Seed}
 	if c.Procs == 0 {
 		c.Procs = 4
 	}
